@@ -411,7 +411,25 @@ def produce_lines(group, tier, seed, release=False, timeout=3000):
         except subprocess.TimeoutExpired:
             return None, "harness timed out"
     if p.returncode != 0:
-        return None, "harness exited with %s: %s" % (p.returncode, p.stderr.decode(errors="replace")[-800:])
+        msg = "harness exited with %s: %s" % (p.returncode, p.stderr.decode(errors="replace")[-800:])
+        if p.returncode < 0:
+            # killed by a signal (an abort inside konst: a non-unwinding panic, a failed unsafe
+            # precondition check): run again with per-line flushing to name the case it died after
+            env = env_base()
+            env["KV_UNBUFFERED"] = "1"
+            try:
+                q = subprocess.run([hb, group, tier, str(seed)], stdout=subprocess.PIPE, stderr=subprocess.DEVNULL, env=env, timeout=timeout)
+                done = q.stdout.decode(errors="replace").split("\n")
+                done = [l for l in done[:-1] if l.count("\t") >= 4]
+                if done:
+                    last = done[-1].split("\t")
+                    msg += " | the process aborted after %d cases; the last case it completed was `%s %s` — the failing input is the next case of the producer (KV_UNBUFFERED=1 %s %s %s %s)" % (
+                        len(done), last[0], last[1][:200], hb, group, tier, seed)
+                else:
+                    msg += " | the process aborted before completing its first case"
+            except subprocess.TimeoutExpired:
+                pass
+        return None, msg
     return out_path, ""
 
 
